@@ -54,6 +54,25 @@ def schema_defs(sdl: str) -> list[tuple[str, str, list[str], list[str], list[str
     return out
 
 
+def first_pass_late(defs) -> set[str]:
+    """The names the FIRST pass of sort_data_models keeps back — the trigger predicate of known finding
+    C17-single-member-union, computed from the schema alone (the Lean model computes the same set; the
+    two are compared on every case of campaign_order)."""
+    enums = {d[0] for d in defs if d[1] == "ENUM"}
+    placed: set[str] = set()
+    late: set[str] = set()
+    for kind in graphql_tables.parse_order():
+        for d in defs:
+            if d[1] != kind:
+                continue
+            refs = (set(d[2]) | {f for f in d[3] if f in enums}) if kind in ("INTERFACE", "OBJECT", "INPUT_OBJECT") else set()
+            if refs - {d[0]} <= placed:
+                placed.add(d[0])
+            else:
+                late.add(d[0])
+    return late
+
+
 def strs_sx(xs) -> str:
     return "(" + " ".join(hx(x) for x in xs) + ")"
 
@@ -177,6 +196,9 @@ def campaign_order(ck: Check, c17) -> None:
             continue
         complete, model_order, late = g[1] == "1", parse_strs(g[2]), parse_strs(g[3])
         camp_o.hit(f"late_classes:{min(len(late), 4)}")
+        if set(late) != first_pass_late(defs):
+            ck.disagree(camp_o, {**inp, "what": "the classes the first pass keeps back: model vs the harness predicate used to classify single-member-union failures"},
+                        sorted(late), sorted(first_pass_late(defs)))
         late_members = sorted({m for u in unions for m in u[4] if m in late})
         camp_o.hit("union_with_late_member" if late_members else "no_late_union_member")
         depth = _chain_depth(defs)
